@@ -6,9 +6,12 @@ cd /repo || exit 2
 if [ -n "$(git status --porcelain)" ]; then echo "repo not clean"; exit 2; fi
 git apply "$patch" || { echo "patch does not apply"; exit 2; }
 cd /verif
+# evidence and replays of runs on a modified tree must never land in /verif/evidence
+export VERIF_EVIDENCE_DIR=$(mktemp -d /tmp/seed-evidence.XXXXXX)
 for p in "$@"; do
   echo "== $p"
   ./check "$p" --tier quick 2>&1 | grep -v "^  \|^built" | head -12
   echo "exit=$?"
 done
 git -C /repo checkout -- . && git -C /repo status --porcelain
+rm -rf "$VERIF_EVIDENCE_DIR"
